@@ -50,6 +50,22 @@ class Opacity(Logger, Citable):
         """
         raise NotImplementedError
 
+    def _bracketing_filter(self, wngrid_filter, wngrid):
+        """
+        Widens a native grid selection by one point on either side so that
+        values at the ends of a requested grid are interpolated from
+        their native neighbours and do not depend on the requested range
+        """
+        native = self.wavenumberGrid
+        if len(wngrid_filter) > 0:
+            low, high = wngrid_filter[0] - 1, wngrid_filter[-1] + 1
+        else:
+            high = np.searchsorted(native, wngrid.min())
+            low = high - 1
+        low = max(low, 0)
+        high = min(high, len(native) - 1)
+        return np.arange(low, high + 1)
+
     def opacity(self, temperature, pressure, wngrid=None):
 
         if wngrid is None:
@@ -57,6 +73,10 @@ class Opacity(Logger, Citable):
         else:
             wngrid_filter = np.where((self.wavenumberGrid >= wngrid.min()) & (
                 self.wavenumberGrid <= wngrid.max()))[0]
+
+        if wngrid is not None and not np.array_equal(
+                self.wavenumberGrid.take(wngrid_filter), wngrid):
+            wngrid_filter = self._bracketing_filter(wngrid_filter, wngrid)
 
         orig = self.compute_opacity(temperature, pressure, wngrid_filter)
 
